@@ -315,3 +315,25 @@ def run_prog(cmd, inp_path, timeout=600, env=None):
         except subprocess.TimeoutExpired as ex:
             rc, out, err = -999, ex.stdout or b"", (ex.stderr or b"") + b"\nTIMEOUT"
     return rc, out.decode("utf-8", "replace"), err.decode("utf-8", "replace"), time.time() - t0
+
+
+def discover_theorems(relpath):
+    """Fully qualified names of the `theorem`s declared in a CaresProps file (namespace-aware)."""
+    p = os.path.join(LEAN, relpath)
+    if not os.path.exists(p):
+        return []
+    txt = strip_comments(open(p).read())
+    ns, out = [], []
+    for line in txt.split("\n"):
+        m = re.match(r"\s*namespace\s+([\w.]+)", line)
+        if m:
+            ns.append(m.group(1))
+            continue
+        m = re.match(r"\s*end\s+([\w.]+)\s*$", line)
+        if m and ns and ns[-1].split(".")[-1] == m.group(1).split(".")[-1]:
+            ns.pop()
+            continue
+        m = re.match(r"\s*(?:private\s+|protected\s+)?theorem\s+([\w.']+)", line)
+        if m and not line.strip().startswith("private"):
+            out.append(".".join(ns + [m.group(1)]))
+    return out
